@@ -302,11 +302,14 @@ mutual
       | .ok (v, rest) => .ok (.psome v, rest)
       | .error e => .error e
     | .ptrNil t, bs =>                                        -- makeOptionalPtrDecoder
-      match readHead bs with
-      | .error e => .error (.rlp e)
-      | .ok (.str 0 rest) => if t.emptyKind = .list then .error .wrongEmpty else .ok (.pnil, rest)
-      | .ok (.list 0 rest) => if t.emptyKind = .str then .error .wrongEmpty else .ok (.pnil, rest)
-      | .ok _ =>
+      -- `size == 0 && kind != Byte` holds exactly when the next byte is 0x80 (empty string) or 0xC0 (empty list):
+      -- long forms with size 0 are ErrCanonSize.  A `Kind()` error is returned as is; the element decoder, which
+      -- starts with the same `Kind()` call, reports it too.
+      if bs.head? = some 0x80 then
+        (if t.emptyKind = .list then .error .wrongEmpty else .ok (.pnil, bs.tail))
+      else if bs.head? = some 0xC0 then
+        (if t.emptyKind = .str then .error .wrongEmpty else .ok (.pnil, bs.tail))
+      else
         match decTy t bs with
         | .ok (v, rest) => .ok (.psome v, rest)
         | .error e => .error e
@@ -348,12 +351,12 @@ def rawOk (b : Bytes) : Bool :=
 
 mutual
   /-- `WFVal ty v`: `v` is a value of Go type `ty` that the decoder can return:
-      uint fits its width; sizes are below 2^64; `[n]byte` has n bytes; `[n]T` has n elements; struct values have
+      uint fits its width (a real width: 8 to 64 bits); sizes are below 2^64; `[n]byte` has n bytes; `[n]T` has n elements; struct values have
       one value per field; a non-optional pointer is never nil; an `rlp:"nil"` pointer is nil only if the encoder's
-      nil form is the empty value the decoder maps to nil, and non-nil only if the element does not encode to an
-      empty value; a RawValue is exactly one header + content; an interface holds a well-sized item. -/
+      nil form is the empty value the decoder maps to nil, and non-nil only if the element's encoding does not start
+      with 0x80/0xC0, i.e. is not an empty value (an encoding is one complete value); a RawValue is exactly one header + content; an interface holds a well-sized item. -/
   def WFVal : Ty → Val → Bool
-    | .uint bits, .num n => n < 256 ^ (bits / 8)
+    | .uint bits, .num n => 8 ≤ bits && bits ≤ 64 && n < 256 ^ (bits / 8)
     | .big, .num n => (beBytes n).length < 2 ^ 64
     | .bool, .bool _ => true
     | .bytes, .bytes b => b.length < 2 ^ 64
@@ -366,7 +369,7 @@ mutual
     | .structTail fs t, .tail vs tl =>
       WFFields fs vs && tl.all (WFVal t) && ((encFields fs vs ++ (tl.map (encTy t)).flatten).length < 2 ^ 64)
     | .ptr t, .psome v => WFVal t v
-    | .ptrNil t, .psome v => WFVal t v && encTy t v != [0x80] && encTy t v != [0xC0]
+    | .ptrNil t, .psome v => WFVal t v && (encTy t v).head? != some 0x80 && (encTy t v).head? != some 0xC0
     | .ptrNil t, .pnil =>
       (t.nilEnc == [0x80] && t.emptyKind != .list) || (t.nilEnc == [0xC0] && t.emptyKind != .str)
     | .raw, .bytes b => rawOk b
@@ -381,8 +384,9 @@ end
 mutual
   /-- types whose decoder is canonical (one accepted encoding per value).  The only exclusions are `rlp:"nil"`
       pointers whose element is itself a pointer (Go accepts both empty values there: `strict = false`) or a
-      RawValue (a nil *RawValue encodes to nothing). -/
+      RawValue (a nil *RawValue encodes to nothing); integer widths must be real (8 to 64 bits). -/
   def Ty.canon : Ty → Bool
+    | .uint bits => 8 ≤ bits && bits ≤ 64
     | .list t | .arr _ t | .ptr t => t.canon
     | .struct fs => Ty.canonAll fs
     | .structTail fs t => Ty.canonAll fs && t.canon
